@@ -489,7 +489,10 @@ Lemma positional s pos : length pos = length (s_params s) ->
 Proof.
   intros H. unfold formal_eval. cbn [length]. rewrite Nat.add_0_r, H, Nat.ltb_irrefl, andb_false_r.
   rewrite <- H, firstn_all, skipn_all. rewrite H, skipn_all. cbn [bind_rest_params].
-  destruct (s_rest s); reflexivity.
+  assert (E : forall l : list (string * option dexpr),
+            existsb (fun p => match n_get [] (norm (fst p)) with Some _ => true | None => false end) l = false)
+    by (induction l; [reflexivity | cbn; assumption]).
+  rewrite E. destruct (s_rest s); reflexivity.
 Qed.
 
 Lemma no_rest_no_K3 s c : s_rest s = None -> known_K3 s c = false.
